@@ -9,6 +9,10 @@ For every case (entry point x variant x fixture) the recorder
     cleared (cold), the call after the hidden state was filled through ANOTHER resource / state point (cross).
 Nothing is judged here: the log goes to TLC (spec/PureTrace.tla, clauses of spec/Pure.tla), which names every
 failing clause.  Python only computes the float64 distance between numeric payloads, as the specification asks.
+Beside the recording TLC checks the hidden-state model spec/Pure.tla exhaustively (PureMC) and refutes it with each named
+hazard switched on; hand-made corrupted events (canaries) go through the oracle on every run.
+Thermodynamic property methods of Adsorbate are interleaved pairwise (previous call at one state point, call at another)
+on the shared registry object and compared with a fresh Adsorbate.
 """
 import contextlib
 import copy
